@@ -184,10 +184,15 @@ Proof.
   destruct (is_castle p m) eqn:Ec.
   - destruct (san_spellings_castle p m s Ec Hs) as [mk [Hmk ->]].
     pose proof (Lcastle m Hm Ec) as Ek. pose proof (legal_link m Hm) as Hin.
+    assert (Hk : piece_opt_eqb (piece_on b (msrc (of_spec_move m))) King = true).
+    { cbn [of_spec_move msrc]. rewrite (Lpiece _ Hsrc).
+      unfold is_castle in Ec. apply andb_prop in Ec as [Eh _]. unfold has in Eh. unfold piece_at.
+      destruct (at_ p (src m)) as [[t' c']|]; [|discriminate]. apply andb_prop in Eh as [Eh _].
+      cbn [piece_opt_eqb]. rewrite ptype_eqb_sym. exact Eh. }
     rewrite Ek in *. apply existsb_cmove_In in Hin.
     destruct (file_of (dst m) =? 6).
-    + rewrite from_san_castle_kingside by exact Hmk. unfold legal, legal_in. rewrite Hin. reflexivity.
-    + rewrite from_san_castle_queenside by exact Hmk. unfold legal, legal_in. rewrite Hin. reflexivity.
+    + rewrite from_san_castle_kingside by exact Hmk. unfold legal, legal_in. rewrite Hk, Hin. reflexivity.
+    + rewrite from_san_castle_queenside by exact Hmk. unfold legal, legal_in. rewrite Hk, Hin. reflexivity.
   - destruct (san_spellings_shape p m s Ec Hs) as (t & sf & sr & mk & e & Ht & -> & Hmk & Hsf & Hsr & He & x & Hx & Hxm).
     apply move_eqb_eq in Hxm. subst x.
     destruct (sq_coords _ Hsrc) as [_ [_ Hrs]]. destruct (sq_coords _ Hdst) as [_ [Hmk_sq Hrd]].
